@@ -73,8 +73,10 @@ def worker_dir(i):
 def apply(d, m):
     p = os.path.join(d, m["file"])
     src = open(os.path.join("/repo", m["file"]), "rb").read()
-    assert src[m["start"]:m["end"]].decode() == m["orig"], m
+    if src[m["start"]:m["end"]].decode("utf-8", "replace") != m["orig"]:
+        return False  # the file changed since stage1 (a fix commit): stale mutant
     open(p, "wb").write(src[:m["start"]] + m["repl"].encode() + src[m["end"]:])
+    return True
 
 
 def revert(d, m):
@@ -124,7 +126,8 @@ def stage1(a):
     env = dict(ENV, GOCACHE=ROOT + "/cache")
 
     def one(d, m):
-        apply(d, m)
+        if not apply(d, m):
+            return dict(m, status="stale")
         try:
             rc, out = sh(["go", "build", "./..."], cwd=d, timeout=120, env=env)
             if rc:
@@ -150,7 +153,9 @@ def stage2(a):
     surv = [r for r in load(a.out + "/stage1.jsonl") if r["status"] == "survivor"]
     seen = {r["id"] for r in load(a.out + "/stage2.jsonl")}
     sel = a.files.split(",") if a.files else None
-    todo = [m for m in surv if m["id"] not in seen and (not sel or any(fnmatch.fnmatch(m["file"], g) for g in sel))]
+    boring = ("Dump", "String", "Kind", "Text", "IsRaw", "SetTypographerOption", "Set", "SetOption")  # debugging aids, option plumbing
+    todo = [m for m in surv if m["id"] not in seen and (not sel or any(fnmatch.fnmatch(m["file"], g) for g in sel))
+            and m["func"].split(".")[-1] not in boring and not m["func"].split(".")[-1].startswith("With")]
     random.Random(a.seed).shuffle(todo)
     todo = todo[: a.limit or None]
     print("survivors", len(surv), "already", len(seen), "todo", len(todo), flush=True)
@@ -159,13 +164,14 @@ def stage2(a):
         sys.exit(out)
 
     def one(d, m):
-        apply(d, m)
+        if not apply(d, m):
+            return dict(m, detected="stale", tried=[], secs=0)
         tried, det, t0 = [], None, time.time()
         try:
-            for c in order_for(m["file"], a.all_checks):
+            for c in order_for(m["file"], a.all_checks)[: a.maxchecks or None]:
                 if a.skip_race and c == "C07":
                     continue
-                env = dict(ENV, VERIF_REPO=d, VERIF_NOKNOWN="1", VERIF_SHARDS=str(a.shards), VERIF_SEED=str(a.vseed))
+                env = dict(ENV, VERIF_REPO=d, VERIF_NOKNOWN="1", VERIF_SHARDS=str(a.shards), VERIF_SEED=str(a.vseed), VERIF_SCALE_PCT=str(a.scale))
                 rc, out = sh([ROOT + "/verifrun", c, "quick"], cwd="/verif/harness", timeout=1500, env=env)
                 tried.append([c, rc])
                 if rc == 1 and "VIOLATION property=" in out:
@@ -184,6 +190,7 @@ def report(a):
     s2 = load(a.out + "/stage2.jsonl")
     from collections import Counter
     print("stage1", Counter(r["status"] for r in s1))
+    s2 = [r for r in s2 if r["detected"] != "stale"]
     print("stage2", len(s2), "detected", sum(1 for r in s2 if r["detected"]), "undetected", sum(1 for r in s2 if not r["detected"]))
     print("by check", Counter(r["detected"] for r in s2))
     byf = Counter((r["file"], bool(r["detected"])) for r in s2)
@@ -208,6 +215,8 @@ if __name__ == "__main__":
     ap.add_argument("--seed", type=int, default=1)
     ap.add_argument("--vseed", type=int, default=1)
     ap.add_argument("--shards", type=int, default=2)
+    ap.add_argument("--scale", type=int, default=100)
+    ap.add_argument("--maxchecks", type=int, default=0)
     ap.add_argument("--files", default="")
     ap.add_argument("--out", default="/tmp/mut/results")
     ap.add_argument("--all-checks", action="store_true")
